@@ -81,7 +81,7 @@ def lkExStructKids : List Comp :=
 def lkExStruct : Comp := Comp.ofValue "st" none (DComp.struct lkExStructKids)
 def lkExKeyItems (supplied : Bool) : List KItem :=
   [.comp (Comp.ofObjConst ⟨"sid", none, none, none, true, 8, .uint32⟩ (.int 0x2E) false) [],
-   .key lkExKeyObj 24 supplied, .key lkExKeyObjN 16 true, .user lkExUser, .ouser lkExObjUser (.int 5) "n", .comp lkExStruct [],
+   .key lkExKeyObj.keyDop lkExKeyObj 24 24 supplied, .key lkExKeyObjN.keyDop lkExKeyObjN 16 16 true, .user lkExUser, .ouser lkExObjUser (.int 5) "n", .comp lkExStruct [],
    .comp (Comp.ofObjValue ⟨"y", none, none, none, true, 8, .uint32⟩ (.int 0x77)) []]
 def lkExW : String → Option Int := fun n => if n = "k" then some 24 else if n = "n" then some 16 else none
 
@@ -145,8 +145,8 @@ theorem lkExKeyItems_ok (b : Bool) : ∀ it ∈ lkExKeyItems b, it.ok lkExW := b
   · have ho : (⟨"sid", none, none, none, true, 8, .uint32⟩ : Obj).ok := by simp [Obj.ok, Obj.encOk, Obj.sizeOk]
     have hr : (⟨"sid", none, none, none, true, 8, .uint32⟩ : Obj).inRange (.int 0x2E) := by simp [Obj.inRange]
     exact Comp.KOk.ofKeyFree _ _ (Comp.ofObjConst_ok _ _ _ ho hr) (Comp.ofObjConst_endOk _ _ _) (Comp.ofObjConst_keyFree _ _ _ ho hr)
-  · exact ⟨⟨rfl, by simp [lkExKeyObj, Obj.ok, Obj.encOk, Obj.sizeOk]⟩, by simp [lkExKeyObj, Obj.inRange]⟩
-  · exact ⟨⟨rfl, by simp [lkExKeyObjN, Obj.ok, Obj.encOk, Obj.sizeOk]⟩, by simp [lkExKeyObjN, Obj.inRange]⟩
+  · exact KeyDop.identical _ ⟨rfl, by simp [lkExKeyObj, Obj.ok, Obj.encOk, Obj.sizeOk]⟩ _ (by simp [lkExKeyObj, Obj.inRange])
+  · exact KeyDop.identical _ ⟨rfl, by simp [lkExKeyObjN, Obj.ok, Obj.encOk, Obj.sizeOk]⟩ _ (by simp [lkExKeyObjN, Obj.inRange])
   · refine ⟨⟨allBytes_of_all _ (by decide), Or.inl ⟨rfl, rfl, Or.inl rfl⟩⟩, rfl⟩
   · exact ⟨by simp [lkExObjUser, Obj.ok, Obj.encOk, Obj.sizeOk], by simp [lkExObjUser, Obj.inRange]⟩
   · exact Comp.KOk.ofKeyFree _ _ lkExStruct_ok.1 lkExStruct_ok.2.1 lkExStruct_ok.2.2
@@ -158,13 +158,13 @@ theorem lkExKeyItems_side (b : Bool) : Comps.namesOk (KItems.comps (lkExKeyItems
     KItems.refsOk lkExW [] [] (lkExKeyItems b) ∧ KItems.covered (lkExKeyItems b) ∧ KItems.apart (lkExKeyItems b) := by
   refine ⟨?_, ⟨rfl, rfl, rfl, rfl, rfl, rfl, trivial⟩, ?_, ?_, ?_⟩
   · simp [Comps.namesOk, KItems.comps, lkExKeyItems, KItem.toComp, Comp.name, Param.name, Comp.ofObjConst, Obj.toConstParam,
-      Comp.ofObjValue, Obj.toParam, Obj.toKeyParam, Obj.toPLParam, PLUser.toParam, lkExKeyObj, lkExKeyObjN, lkExUser, lkExObjUser,
+      Comp.ofObjValue, Obj.toParam, Obj.toKeyParamD, Obj.toPLParam, PLUser.toParam, lkExKeyObj, lkExKeyObjN, lkExUser, lkExObjUser,
       lkExStruct, Comp.ofValue]
   · refine ⟨rfl, rfl, by simp [lkExUser, lkExKeyObj, lkExKeyObjN], rfl, by simp [lkExKeyObj, lkExKeyObjN], rfl,
       Or.inl (by simp [lkExUser, lkExKeyObj, lkExKeyObjN]), trivial⟩
-  · intro o v hm
+  · intro kd o v i hm
     simp only [lkExKeyItems, List.mem_cons, List.mem_nil_iff, or_false, reduceCtorEq, false_or, KItem.key.injEq] at hm
-    rcases hm with ⟨rfl, _, _⟩ | ⟨_, _, h⟩
+    rcases hm with ⟨_, rfl, _, _, _⟩ | ⟨_, _, _, _, h⟩
     · exact ⟨.user lkExUser, by simp [lkExKeyItems], _, rfl⟩
     · cases h
   · simp [KItems.apart, lkExKeyItems, KItem.touches, lkExKeyObj, lkExKeyObjN]
@@ -198,10 +198,10 @@ def lkExK1 : Obj := ⟨"k1", none, none, none, true, 8, .uint32⟩
 def lkExK2 : Obj := ⟨"k2", none, none, none, true, 8, .uint32⟩
 def lkExInnerUser : PLUser := { name := "data", bytePos := none, key := "k2", bt := .bytefield, hl := true, v := .bytes [1, 2, 3], raw := [1, 2, 3] }
 def lkExOuterUser : PLUser := { name := "d1", bytePos := none, key := "k1", bt := .bytefield, hl := true, v := .bytes [0xAA, 0xBB], raw := [0xAA, 0xBB] }
-def lkExInner : List KItem := [.key lkExK2 24 false, .user lkExInnerUser]
+def lkExInner : List KItem := [.key lkExK2.keyDop lkExK2 24 24 false, .user lkExInnerUser]
 def lkExNestItems : List KItem :=
   [.comp (Comp.ofObjConst ⟨"sid", none, none, none, true, 8, .uint32⟩ (.int 0x2E) false) [],
-   .key lkExK1 16 false, .comp (Comp.kstruct "st" none lkExInner) (KItems.touched lkExInner), .user lkExOuterUser,
+   .key lkExK1.keyDop lkExK1 16 16 false, .comp (Comp.kstruct "st" none lkExInner) (KItems.touched lkExInner), .user lkExOuterUser,
    .comp (Comp.ofObjValue ⟨"y", none, none, none, true, 8, .uint32⟩ (.int 0x77)) []]
 def lkExNestW : String → Option Int := fun n => if n = "k1" then some 16 else if n = "k2" then some 24 else none
 def lkExNestPdu : Bytes := [0x2E, 0x10, 0x18, 0x01, 0x02, 0x03, 0xAA, 0xBB, 0x77]
@@ -221,13 +221,13 @@ theorem lkExInner_ok : (∀ it ∈ lkExInner, it.ok lkExNestW) ∧ Comps.eopLast
   · intro it hit
     simp only [lkExInner, List.mem_cons, List.mem_nil_iff, or_false] at hit
     rcases hit with rfl | rfl
-    · exact ⟨⟨rfl, by simp [lkExK2, Obj.ok, Obj.encOk, Obj.sizeOk]⟩, by simp [lkExK2, Obj.inRange]⟩
+    · exact KeyDop.identical _ ⟨rfl, by simp [lkExK2, Obj.ok, Obj.encOk, Obj.sizeOk]⟩ _ (by simp [lkExK2, Obj.inRange])
     · exact ⟨⟨allBytes_of_all _ (by decide), Or.inl ⟨rfl, rfl, Or.inl rfl⟩⟩, rfl⟩
-  · simp [Comps.namesOk, KItems.comps, lkExInner, KItem.toComp, Comp.name, Param.name, Obj.toKeyParam, PLUser.toParam, lkExK2, lkExInnerUser]
+  · simp [Comps.namesOk, KItems.comps, lkExInner, KItem.toComp, Comp.name, Param.name, Obj.toKeyParamD, PLUser.toParam, lkExK2, lkExInnerUser]
   · simp [KItems.apart, lkExInner, KItem.touches]
-  · intro o v hm
+  · intro kd o v i hm
     simp only [lkExInner, List.mem_cons, List.mem_nil_iff, or_false, reduceCtorEq, KItem.key.injEq] at hm
-    obtain ⟨rfl, _, _⟩ := hm
+    obtain ⟨_, rfl, _, _, _⟩ := hm
     exact ⟨.user lkExInnerUser, by simp [lkExInner], _, rfl⟩
 
 theorem lkExNestItems_ok : ∀ it ∈ lkExNestItems, it.ok lkExNestW := by
@@ -237,7 +237,7 @@ theorem lkExNestItems_ok : ∀ it ∈ lkExNestItems, it.ok lkExNestW := by
   · have ho : (⟨"sid", none, none, none, true, 8, .uint32⟩ : Obj).ok := by simp [Obj.ok, Obj.encOk, Obj.sizeOk]
     have hr : (⟨"sid", none, none, none, true, 8, .uint32⟩ : Obj).inRange (.int 0x2E) := by simp [Obj.inRange]
     exact Comp.KOk.ofKeyFree _ _ (Comp.ofObjConst_ok _ _ _ ho hr) (Comp.ofObjConst_endOk _ _ _) (Comp.ofObjConst_keyFree _ _ _ ho hr)
-  · exact ⟨⟨rfl, by simp [lkExK1, Obj.ok, Obj.encOk, Obj.sizeOk]⟩, by simp [lkExK1, Obj.inRange]⟩
+  · exact KeyDop.identical _ ⟨rfl, by simp [lkExK1, Obj.ok, Obj.encOk, Obj.sizeOk]⟩ _ (by simp [lkExK1, Obj.inRange])
   · exact Comp.kstruct_kok "st" none lkExInner lkExInner_ok.1 lkExInner_ok.2.1 lkExInner_ok.2.2.1 lkExInner_ok.2.2.2.1 lkExInner_ok.2.2.2.2.1
       lkExInner_ok.2.2.2.2.2
   · exact ⟨⟨allBytes_of_all _ (by decide), Or.inl ⟨rfl, rfl, Or.inl rfl⟩⟩, rfl⟩
@@ -249,10 +249,10 @@ theorem lkExNestItems_side : Comps.namesOk (KItems.comps lkExNestItems) ∧ Comp
     KItems.refsOk lkExNestW [] [] lkExNestItems ∧ KItems.covered lkExNestItems ∧ KItems.apart lkExNestItems := by
   refine ⟨?_, ⟨rfl, rfl, rfl, rfl, trivial⟩, ⟨rfl, by simp [lkExOuterUser, lkExK1], rfl, trivial⟩, ?_, ?_⟩
   · simp [Comps.namesOk, KItems.comps, lkExNestItems, KItem.toComp, Comp.name, Param.name, Comp.ofObjConst, Obj.toConstParam,
-      Comp.ofObjValue, Obj.toParam, Obj.toKeyParam, PLUser.toParam, lkExK1, lkExOuterUser, Comp.kstruct]
-  · intro o v hm
+      Comp.ofObjValue, Obj.toParam, Obj.toKeyParamD, PLUser.toParam, lkExK1, lkExOuterUser, Comp.kstruct]
+  · intro kd o v i hm
     simp only [lkExNestItems, List.mem_cons, List.mem_nil_iff, or_false, reduceCtorEq, false_or, KItem.key.injEq] at hm
-    obtain ⟨rfl, _, _⟩ := hm
+    obtain ⟨_, rfl, _, _, _⟩ := hm
     exact ⟨.user lkExOuterUser, by simp [lkExNestItems], _, rfl⟩
   · simp [KItems.apart, lkExNestItems, KItem.touches, KItems.touched, lkExInner, lkExK1, lkExK2]
 
